@@ -166,12 +166,21 @@ def check_tf(name):
     modal = L.Meta.modal
     A, B = G['Atomic'](0, 0), G['Atomic'](1, 0)
     out = dict(evals=0, shapes=0, viol=[], sample=None)
-    for opname, negated, d in tf_shapes(mv):
+    # the immediate components are an atom or a negated atom each (a rule may treat a negated operand differently)
+    templates = [('', lambda: (A, B)), ('|operands=~A,B', lambda: (~A, B)), ('|operands=A,~B', lambda: (A, ~B)), ('|operands=~A,~B', lambda: (~A, ~B))]
+    for (opname, negated, d), (tlabel, tmpl) in itertools.product(list(tf_shapes(mv)), templates):
         op = G['Operator'][opname]
-        s = G['Operated'](op, (A,) if op.arity == 1 else (A, B))
+        operands = tmpl()
+        if op.arity == 1:
+            if 'B' in tlabel.replace('~A,B', ''):
+                continue
+            operands = operands[:1]
+        if opname == 'Negation' and tlabel:
+            continue
+        s = G['Operated'](op, operands)
         if negated:
             s = ~s
-        shape = f"{opname}{'Negated' if negated else ''}{'' if d is None else ('Designated' if d else 'Undesignated')}"
+        shape = f"{opname}{'Negated' if negated else ''}{'' if d is None else ('Designated' if d else 'Undesignated')}{tlabel if op.arity == 2 else tlabel.replace(',B', '')}"
         out['shapes'] += 1
         node = _mk_node(s, d, 0, mv, modal)
         tab, b = _fresh_branch(L, [node])
@@ -253,11 +262,11 @@ def check_quant(name):
         q = G['Quantifier'][qname]
         for negated in (False, True):
             for d in ((True, False) if mv else (None,)):
-                for k in (1, 2, 3):
-                    s = G['Quantified'](q, x, Fx)
+                for k, (blabel, body) in itertools.product((1, 2, 3), (('', Fx), ('|body=~Fx', ~Fx))):
+                    s = G['Quantified'](q, x, body)
                     if negated:
                         s = ~s
-                    shape = f"{qname}{'Negated' if negated else ''}{'' if d is None else ('Designated' if d else 'Undesignated')}|k={k}"
+                    shape = f"{qname}{'Negated' if negated else ''}{'' if d is None else ('Designated' if d else 'Undesignated')}{blabel}|k={k}"
                     out['shapes'] += 1
                     consts = [G['Constant'](i, 0) for i in range(k)]
                     seeds = [G['Predicated'](Gp, (c,)) for c in consts]
@@ -374,11 +383,11 @@ def check_modal(name):
         op = G['Operator'][opname]
         for negated in (False, True):
             for d in ((True, False) if mv else (None,)):
-                for cfg in ACCESS_CONFIGS:
-                    s = G['Operated'](op, (A,))
+                for cfg, (olabel, operand) in itertools.product(ACCESS_CONFIGS, (('', A), ('|operand=~A', ~A))):
+                    s = G['Operated'](op, (operand,))
                     if negated:
                         s = ~s
-                    shape = f"{opname}{'Negated' if negated else ''}{'' if d is None else ('Designated' if d else 'Undesignated')}|R={list(cfg)}"
+                    shape = f"{opname}{'Negated' if negated else ''}{'' if d is None else ('Designated' if d else 'Undesignated')}{olabel}|R={list(cfg)}"
                     out['shapes'] += 1
                     node = _mk_node(s, d, 0, mv, True)
                     seeds = [anode(u, v) for (u, v) in cfg]
@@ -534,7 +543,7 @@ def run(ctx):
     cov = dict(
         evaluations=sum(r['evals'] for r in res),
         distinct_nontrivial=sum(r['shapes'] for r in res),
-        rule=('every (logic, node shape) pair: truth-functional shapes x all operand value pairs (one step); quantifier shapes '
+        rule=('every (logic, node shape) pair: truth-functional shapes with atomic and negated-atom operands x all operand value pairs (one step); quantifier shapes (body Fx and ~Fx) '
               'x 1..3 present constants x all monadic valuations; modal shapes x 7 access configurations x all valuations '
               'of the operand at the worlds present; frame rules x every set of access pairs over <= 3 worlds'
               + (' (3-world sets with <= 3 pairs in the quick tier)' if ctx.quick else '') + '; distinct = shapes analysed'),
